@@ -34,17 +34,18 @@ class R:
         return [M(c) for c in circuits]
 
 
-def _task(kind, i):
+def _task(kind, i, shots=None):
     # 0 measurable, 1 constant operator, 2 zero-shot (operator with an identity part), 3 constant operator AND zero shots, 4 measurable sum with identity part
+    n = 10 + i if shots is None else shots
     if kind == 0:
-        return EstimationTask(PauliTerm({0: "Z"}, 2.0), 100 + i, 10 + i)
+        return EstimationTask(PauliTerm({0: "Z"}, 2.0), 100 + i, n)
     if kind == 1:
-        return EstimationTask(PauliSum([PauliTerm({}, 1000.0 + i)]), 100 + i, 10 + i)
+        return EstimationTask(PauliSum([PauliTerm({}, 1000.0 + i)]), 100 + i, n)
     if kind == 2:
         return EstimationTask(PauliSum([PauliTerm({}, 4.0), PauliTerm({0: "Z"}, 2.0)]), 100 + i, 0)
     if kind == 3:
         return EstimationTask(PauliTerm({}, 2000.0 + i), 100 + i, 0)
-    return EstimationTask(PauliSum([PauliTerm({1: "Z"}, 0.5), PauliTerm({}, 3.0)]), 100 + i, 10 + i)
+    return EstimationTask(PauliSum([PauliTerm({1: "Z"}, 0.5), PauliTerm({}, 3.0)]), 100 + i, n)
 
 
 def _expected(kind, i):
@@ -67,8 +68,17 @@ def h_results_in_task_order(kinds: List[int]) -> bool:
     return _check_order(kinds)
 
 
-def _check_order(kinds):
-    tasks = [_task(k, i) for i, k in enumerate(kinds)]
+def h_results_in_task_order_any_shots(kinds: List[int], shots: List[int]) -> bool:
+    """
+    pre: len(kinds) == 3 and len(shots) == 3 and all(k == 0 or k == 1 or k == 4 for k in kinds) and all(1 <= s <= 3 for s in shots)
+    post: _
+    """
+    # shot counts in ANY relative order (equal, increasing, decreasing, cyclic): results stay at their task's position
+    return _check_order(kinds, [10 * s for s in shots])
+
+
+def _check_order(kinds, shots=None):
+    tasks = [_task(k, i, None if shots is None else shots[i]) for i, k in enumerate(kinds)]
     snapshot = list(tasks)
     r = R()
     out = ES.estimate_expectation_values_by_averaging(r, tasks)
@@ -80,7 +90,11 @@ def _check_order(kinds):
     meas = [i for i, k in enumerate(kinds) if k in (0, 4)]
     if not meas:
         return r.calls == []
-    return r.calls == [([100 + i for i in meas], [10 + i for i in meas])]
+    # one batch carrying exactly the measurable tasks, each circuit with its own shot count (submission order is free)
+    if len(r.calls) != 1 or len(r.calls[0][0]) != len(meas) or len(r.calls[0][1]) != len(meas):
+        return False
+    want = sorted((100 + i, tasks[i].number_of_shots) for i in meas)
+    return sorted(zip(r.calls[0][0], r.calls[0][1])) == want
 
 
 def h_results_twin(kinds: List[int]) -> bool:
@@ -92,11 +106,23 @@ def h_results_twin(kinds: List[int]) -> bool:
     return not (len(kinds) == 3 and kinds[0] == 0 and kinds[2] == 1)   # reachability: must be refuted
 
 
-def h_split_partitions(kinds: List[int]) -> bool:
+def h_split_partitions_len4(kinds: List[int]) -> bool:
     """
-    pre: len(kinds) <= 4 and all(0 <= k <= 4 for k in kinds)
+    pre: len(kinds) == 4 and all(0 <= k <= 2 for k in kinds)
     post: _
     """
+    return _check_split(kinds)
+
+
+def h_split_partitions(kinds: List[int]) -> bool:
+    """
+    pre: len(kinds) <= 3 and all(0 <= k <= 4 for k in kinds)
+    post: _
+    """
+    return _check_split(kinds)
+
+
+def _check_split(kinds):
     tasks = [_task(k, i) for i, k in enumerate(kinds)]
     a, b, ia, ib = ES.split_estimation_tasks_to_measure(tasks)
     if sorted(ia + ib) != list(range(len(kinds))) or ia != sorted(ia) or ib != sorted(ib):
@@ -114,18 +140,20 @@ class Circ:
         return ("bound", self.tag, m["id"])
 
 
-def h_bind_each_task_with_its_map(n: int, extra: int) -> bool:
+def h_bind_each_task_with_its_map(n: int, extra: int, owner: List[int]) -> bool:
     """
-    pre: 0 <= n <= 3 and 0 <= extra <= 2
+    pre: 0 <= n <= 3 and 0 <= extra <= 2 and len(owner) == n and all(0 <= o < n for o in owner)
     post: _
     """
+    # owner[i] says which circuit OBJECT task i carries: tasks may share one object; every map uses the same key
+    circs = [Circ(j) for j in range(n)]
     ops = [PauliTerm({0: "Z"}, float(i)) for i in range(n)]
-    tasks = [EstimationTask(ops[i], Circ(i), 5 + i) for i in range(n)]
+    tasks = [EstimationTask(ops[i], circs[owner[i]], 5 + i) for i in range(n)]
     maps = [{"id": 50 + i} for i in range(n + extra)]
     out = ES.evaluate_estimation_circuits(tasks, maps)
     if len(out) != n:
         return False
-    return all(o.circuit == ("bound", i, 50 + i) and o.operator is ops[i] and o.number_of_shots == 5 + i for i, o in enumerate(out)) and all(t.circuit.tag == i for i, t in enumerate(tasks))
+    return all(o.circuit == ("bound", owner[i], 50 + i) and o.operator is ops[i] and o.number_of_shots == 5 + i for i, o in enumerate(out)) and all(t.circuit.tag == owner[i] for i, t in enumerate(tasks))
 '''
 
 EXPECT_REFUTED = {"h_results_twin"}
